@@ -303,7 +303,7 @@ pub fn run_elf(ctx: &Ctx, property: &'static str) -> i32 {
         };
     }
     let tier = ctx.tier;
-    let n: u32 = tier.pick(40_000, 2_000_000);
+    let n: u32 = tier.pick(150_000, 3_000_000);
     let nshards = 64usize;
     let stats = par_shards(ctx, nshards, |shard| {
         let ld = std::cell::RefCell::new(Loader::new(&format!("{}-{}", property, shard)));
